@@ -566,6 +566,14 @@ def keyFilter (pblack pwhite : List Bytes) (sblack swhite : List (Nat × Nat)) (
   black.any (isPrefixOf · k) || (!pwhite.isEmpty && !pwhite.any (isPrefixOf · k)) ||
     inR sblack || (!swhite.isEmpty && !inR swhite)
 
+/-- since /repo e867911 `rdbReplay` also withholds an entry whose TARGET key - the key it is replayed to
+    under ReplaceHashTag: first `{` and first `}` removed - lies in one of the tool's own namespaces
+    (`bisyncRdbTargetReserved`); part of the `filterKey` parameter of the replay model -/
+def targetReserved (rht : Bool) (k : Bytes) : Bool :=
+  rht &&
+    (let t := removeFirst 125 (removeFirst 123 k)
+     isPrefixOf b!"redis-gunyu-bisync:" t || isPrefixOf b!"redis-gunyu-checkpoint" t || isPrefixOf b!"/redis-gunyu" t)
+
 /-! ### stream value rendering (svv) -/
 
 /-- target version token: `7` or `6.2` → (major, minor) -/
@@ -638,7 +646,7 @@ def handle : List String → Option (List String)
         | some (bs, []) =>
           let cfg : RCfg := { x := { tgtMajor := tgt, fnExists := fnex, tgtMinor := minor }, enableRestore := restore == "1",
                               maxBulk := bulk, parallel := par, targetDb := tdb, dbMap := dbmap, now := now, tick := tick, replaceHashTag := rht == "1",
-                              filterDb := fun d => dbb.contains d, filterKey := keyFilter pb pw sb sw }
+                              filterDb := fun d => dbb.contains d, filterKey := fun k => keyFilter pb pw sb sw k || targetReserved (rht == "1") k }
           let (logs, ok) := sendRdb { thr, failModAux := modaux == "1" } cfg pre bs
           if ok then
             -- worker logs in canonical order: sorted by their rendered content
